@@ -160,7 +160,6 @@ func Run(t *testing.T, opts Options, root func(s *Sim)) (rep *Report) {
 	s := &Sim{
 		opts:    opts,
 		byGoid:  map[uint64]*Task{},
-		notify:  make(chan struct{}, 1),
 		rng:     splitmix{opts.Sched.Seed},
 		lowPrio: 1 << 20,
 		hash:    14695981039346656037,
@@ -186,6 +185,9 @@ func Run(t *testing.T, opts Options, root func(s *Sim)) (rep *Report) {
 		}
 	}()
 	synctest.Test(t, func(t *testing.T) {
+		// created inside the bubble: blocking on a channel made outside it is not
+		// durable, and the fake clock would never advance while the scheduler idles
+		s.notify = make(chan struct{}, 1)
 		s.start = time.Now()
 		s.Go("root", 0, func() { root(s) })
 		s.loop()
@@ -244,6 +246,10 @@ func (s *Sim) exit(t *Task) {
 	s.mu.Unlock()
 	s.poke()
 }
+
+// Poke tells the scheduler that something it cannot see changed (a fake-clock
+// timer of a stub fired), so that wake conditions are re-evaluated.
+func (s *Sim) Poke() { s.poke() }
 
 func (s *Sim) poke() {
 	select {
